@@ -422,11 +422,24 @@ func (r *rewriter) mutexCall(c *ast.CallExpr) {
 	default:
 		return
 	}
-	if len(selection.Index()) != 1 {
-		die("%s: mutex reached through embedding is not supported", r.fset.Position(c.Pos()))
+	var recv ast.Expr = sel.X
+	rt := r.info.Types[sel.X].Type
+	// a mutex reached through embedding (x.Lock() where x embeds sync.Mutex): spell the path out
+	if idx := selection.Index(); len(idx) > 1 {
+		for _, i := range idx[:len(idx)-1] {
+			t := rt
+			if p, ok := t.Underlying().(*types.Pointer); ok {
+				t = p.Elem()
+			}
+			st, ok := t.Underlying().(*types.Struct)
+			if !ok || i >= st.NumFields() {
+				die("%s: cannot resolve the embedded mutex", r.fset.Position(c.Pos()))
+			}
+			f := st.Field(i)
+			recv = &ast.SelectorExpr{X: recv, Sel: ast.NewIdent(f.Name())}
+			rt = f.Type()
+		}
 	}
-	recv := sel.X
-	rt := r.info.Types[recv].Type
 	var arg ast.Expr
 	if _, isPtr := rt.Underlying().(*types.Pointer); isPtr {
 		arg = recv
